@@ -22,6 +22,9 @@ CLAIMS = {
  "C17": ("Semantic-token transport modelled (uint32 delta encoding, range filter, edit computation, process-global result cache); C17_delta proved for every tokenizer and every history with deltas quoting current, stale, foreign or unknown ids; C17_range/decode-encode proved for all position-sorted token lists. Every run replays request histories on up to 3 documents against the implementation, reconstructs the client's array from its answers and checks token geometry (order, overlap, inside line, legend, non-zero length) with line lengths in UTF-16 units.",
          "Trusted: Coq kernel+VM; the tokenizer is a parameter at this level (lexeme-exact coverage of each token kind is not yet modelled: geometry is checked on the implementation's output only); known finding nonascii_columns_and_lengths; zero-length tokens were repaired.",
          "Coq invariant proof over all request histories + client-reconstruction oracle on the implementation", "5 C17"),
+ "C18": ("isAccountDeclared / checkUndeclaredAccounts / checkUndeclaredCommodities / settings filter modelled; theorems for all inputs: a posting is warned about iff its account is neither declared, nor strictly below a declared account, nor under a standard category (case-insensitive); commodities exactly the undeclared non-empty symbols of amounts, costs and assertions, each once; each switch removes exactly its own code. The scope clause is refuted (no workspace root: include-tree declarations ignored; known finding). Every run drives the real server over 3-file directories x 8 settings x with/without root.",
+         "Trusted: Coq kernel+VM; parser output is an input of the model at this level; ASCII ToLower.",
+         "Coq proofs of the rule (reflection lemmas) + end-to-end differential oracle over declaration scopes", "5 C18"),
  "C19": ("Settings parsing/normalisation is modelled in Gallina; 11 theorems (totality, effectiveness, frame, wrapper, defaults, sequences) are proved for all JSON payloads and all sequences; the model is tied to the code by running both on generated payload sequences through Initialize and workspace/configuration.",
          "Trusted: Coq kernel+VM, the hand transcription (checked by correspondence only), encoding/json, ASCII-only TrimSpace/ToLower model, read-only hook VerifGetSettings; refreshes applied serially.",
          "Coq proof over Gallina model + differential correspondence (vm_compute)", "5 C19"),
